@@ -170,6 +170,47 @@ class subgraph(Derivation):
         return sp
 
 
+class subgraph_any(subgraph):
+    """subgraph(S) for S a tuple of atoms of the graph of ANY length (membership array S_any; order and repetitions are
+    irrelevant to the result): needs the comprehensions of subgraph summarised (vf/pyvc/summarise.py)"""
+
+    def call(self, it, g, cname):
+        S = z3.Const("S_any", z3.ArraySort(z3.IntSort(), z3.BoolSort()))
+        return ("method", "subgraph", [H.SymSeq(S, z3.IntSort(), "set")], {}), {"S_arr": S}
+
+    def pre(self, v, s, cname):
+        x = z3.Int("sx")
+        return z3.ForAll([x], z3.Implies(z3.Select(s["S_arr"], x), v.atom(x)), patterns=[z3.Select(s["S_arr"], x)])
+
+    def spec(self, v, s, cname):
+        s2 = dict(s)
+        sp = _subgraph_spec(v, lambda x: z3.Select(s["S_arr"], x), cname)
+        return sp
+
+
+def _subgraph_spec(v, inS, cname):
+    inSb = lambda b: z3.And(inS(BondS.lo(b)), inS(BondS.hi(b)))  # noqa
+
+    def inside(d):
+        return z3.And(*[z3.Or(i >= _dlen(d), OIntS.is_ONone(d_slot(d, i)), inS(OIntS.ov(d_slot(d, i)))) for i in range(7)])
+
+    sp = {"atom": lambda x: z3.And(v.atom(x), inS(x)), "bond": lambda b: z3.And(v.bond(b), inSb(b))}
+    if cname in STEREO:
+        sp["as"] = lambda x: z3.If(z3.And(v.as_has(x), inside(v.as_val(x))), osome(v.as_val(x)), ODescrS.DNone)
+        sp["bs"] = lambda b: z3.If(z3.And(v.bs_has(b), inside(v.bs_val(b))), osome(v.bs_val(b)), ODescrS.DNone)
+    if cname == "StereoCondensedReactionGraph":
+        def acv(x, c):
+            o = ac_view(v, x, c)
+            return z3.If(z3.And(ODescrS.is_DSome(o), inside(ODescrS.dd(o))), o, ODescrS.DNone)
+
+        def bcv(b, c):
+            o = bc_view(v, b, c)
+            return z3.If(z3.And(ODescrS.is_DSome(o), inside(ODescrS.dd(o))), o, ODescrS.DNone)
+
+        sp["ac"], sp["bc"] = acv, bcv
+    return sp
+
+
 def _dlen(d):
     from ..pyvc.graphmodel import d_len
 
@@ -200,4 +241,4 @@ class enantiomer(Derivation):
         return sp
 
 
-DERIVATIONS = {"copy": copy, "copy_constructor": copy_constructor, "relabel_atoms(copy=True)": relabel_copy, "subgraph": subgraph, "enantiomer": enantiomer}
+DERIVATIONS = {"subgraph(any size)": subgraph_any, "copy": copy, "copy_constructor": copy_constructor, "relabel_atoms(copy=True)": relabel_copy, "subgraph": subgraph, "enantiomer": enantiomer}
